@@ -80,6 +80,12 @@ fn gen_script(rng: &mut Rng, kind: ChildKind, c: usize, n: usize, small: bool, p
                 };
                 let fires = if rng.chance(20) { gen_fires(rng, c, n) } else { vec![] };
                 steps.push(Step { res: Res::Ready(ok, c * 100 + 1), fires });
+                // what the child would answer if it were (wrongly) polled again after it resolved: a
+                // second value.  A correct combinator never sees it; one that re-polls a finished child
+                // then owns two values for one slot, which makes the ownership consequences observable.
+                if zombie_steps(prof) && rng.chance(25) {
+                    steps.push(Step { res: Res::Ready(ok, c * 100 + 51), fires: vec![] });
+                }
             }
         }
         ChildKind::Stream => {
@@ -100,10 +106,21 @@ fn gen_script(rng: &mut Rng, kind: ChildKind, c: usize, n: usize, small: bool, p
             }
             if prof.is("drain") || !rng.chance(if prof.is("stuck") { 35 } else { 10 }) {
                 steps.push(Step { res: Res::Fin, fires: vec![] });
+                // as above: an item after the end, only ever seen by a combinator that polls an ended stream
+                if zombie_steps(prof) && rng.chance(25) {
+                    steps.push(Step { res: Res::Item(c * 100 + 51), fires: vec![] });
+                    steps.push(Step { res: Res::Fin, fires: vec![] });
+                }
             }
         }
     }
     steps
+}
+
+/// profiles whose scripts may continue after the child's final answer (never the executor-driven ones,
+/// whose children are well-behaved by construction)
+fn zombie_steps(prof: &Profile) -> bool {
+    prof.is("random") || prof.is("stuck") || prof.is("panic") || prof.is("errs") || prof.is("big")
 }
 
 /// replace one step of one child by a panic (at most one per case)
